@@ -1,29 +1,46 @@
-import FstVerif.Model.Stream
+import FstVerif.Proofs.Bounds
 /-
-C14 — traversal memory (partial: allocations are measured by ./check). Here:
-one step of the stream grows the stack by at most one frame and the key buffer
-by at most one byte, and set-operation heaps hold at most one slot per stream
-after a refill of a held slot.
+C14 — traversals and set operations stream with memory independent of the FST
+size. PARTIAL: the theorems bound the model's stack / key buffer / heap sizes;
+allocations themselves (incl. "open and point lookups allocate nothing") are
+MEASURED by ./check with a counting allocator. Statements here; proofs in
+Proofs/BoundsStream.lean, BoundsOps.lean, Bounds.lean.
 -/
-namespace Fst
+namespace Fst.Props
+open Fst Fst.Bounds
 variable {N σ : Type}
 
-def StepRes.state? : StepRes N σ → Option (SState N σ)
-  | .panic => none
-  | .done s => some s
-  | .emit _ _ _ s => some s
-  | .cont s => some s
+/-- every stream state reachable from `StreamWithState::new` (any store, any automaton,
+any bounds): the stack is at most one frame deeper than the key buffer is long -/
+theorem C14_stream_depth {acc : NodeAccess N} {A : Aut σ} {root : Nat} {min max : Bound}
+    {st : SState N σ} (h : SReach acc A root min max st) : st.stack.length ≤ st.inp.length + 1 :=
+  Fst.Bounds.C14_stream_depth h
 
-/-- a step pushes at most one frame and one byte -/
+/-- on the file of any build: key buffer ≤ longest key, stack ≤ longest key + 1 — no term
+in the number of keys stored or emitted -/
+theorem C14_stream_built (rows cols : Nat) (kvs : KV) (h : SortedKV kvs) :
+    ∃ s s' root, insertAll (BState.new rows cols) kvs = .ok s ∧ s.finish = .ok (s', root) ∧
+      ∀ {N σ : Type} (acc : NodeAccess N) (A : Aut σ) (min max : Bound) (st : SState N σ),
+        Represents acc (storeOf s') → SReach acc A root min max st →
+        st.inp.length ≤ maxLen kvs ∧ st.stack.length ≤ maxLen kvs + 1 :=
+  Fst.Bounds.C14_stream_built rows cols kvs h
+
+/-- set operations over k streams hold at most one slot per stream, whatever the
+heap's tie-break and however the operations are interleaved -/
+theorem C14_ops_slots {pop : PopFn} {streams : List KV} {s : OpState}
+    (hp : Ops.PopSpec pop) (h : OpReach pop streams s) :
+    s.heap.heap.length ≤ streams.length ∧ s.heap.rdrs.length = streams.length :=
+  ⟨(Fst.Bounds.C14_ops_slots hp h).1, (Fst.Bounds.C14_ops_slots hp h).2.1⟩
+
+theorem C14_diff_slots {pop : PopFn} {first : KV} {rest : List KV} {d : DiffState}
+    (hp : Ops.PopSpec pop) (h : DiffReach pop (first :: rest) d) :
+    d.heap.heap.length ≤ (first :: rest).length - 1 :=
+  (Fst.Bounds.C14_ops_slots_diff hp h).1
+
+/-- one step pushes at most one frame and one byte -/
 theorem C14_step_growth (acc : NodeAccess N) (A : Aut σ) (root : Nat) (s s' : SState N σ)
-    (h : (streamStep acc A root s).state? = some s') :
-    s'.stack.length ≤ s.stack.length + 1 ∧ s'.inp.length ≤ s.inp.length + 1 := by
-  unfold streamStep at h
-  dsimp only at h
-  repeat' (split at h)
-  all_goals (first
-    | (simp only [StepRes.state?, Option.some.injEq] at h; subst h; simp_all <;> omega)
-    | (simp only [StepRes.state?, Option.some.injEq] at h; subst h; simp_all)
-    | (simp [StepRes.state?] at h))
+    (h : stepState (streamStep acc A root s) = some s') :
+    s'.stack.length ≤ s.stack.length + 1 ∧ s'.inp.length ≤ s.inp.length + 1 :=
+  Fst.Bounds.C14_step_growth acc A root s s' h
 
-end Fst
+end Fst.Props
